@@ -3,10 +3,10 @@
 # current checks: patch applies, suite green, demonstration red, and the quick tier of the
 # check(s) named in meta.json "caught_by" reports a violation. One line per change.
 cd "$(dirname "$0")/.."
-dirs=("$@"); [ ${#dirs[@]} -eq 0 ] && dirs=(seeded/C??-[A-D])
+dirs=("$@"); [ ${#dirs[@]} -eq 0 ] && dirs=(seeded/C??-[A-E])
 for d in "${dirs[@]}"; do
   ids=$(python3 -c "import json,re,sys;m=json.load(open('$d/meta.json'));print(' '.join(dict.fromkeys(re.findall(r'C\d\d', m.get('caught_by','')))))")
-  out=$(tools/try_mutant.sh "$d" $ids 2>&1)
+  out=$(${TRY:-tools/try_mutant.sh} "$d" $ids 2>&1)   # TRY=tools/try_mutant_iso.sh: scratch copies, /repo untouched
   ok=$(echo "$out" | grep -c "(ok)")
   res=$(echo "$out" | grep "^check" | sed 's/check \(C[0-9]*\) quick: exit \([0-9]\) \([0-9]*\) violation.*/\1:exit\2:\3viol/' | tr '\n' ' ')
   echo "$(basename $d) confirm=$ok/3 $res"
